@@ -1,1 +1,101 @@
-From TF Require Import Model.Admit.
+(* C12 - The host serves at most max-receivers at once, the rest in arrival order.
+   Statements about Model/Admit.v (the admission bookkeeping of SnapshotSender),
+   for ALL event histories over any number of receivers and any max-receivers. *)
+From Coq Require Import ZArith List Bool Arith.
+Import ListNotations.
+From TF Require Import Model.Admit Proofs.Admit.
+Open Scope Z_scope.
+
+(* never more slots than max-receivers (unconditional) *)
+Theorem C12_slots_bound : forall m t evs, slots_bounded (run (init m t) evs).
+Proof. exact slots_bound. Qed.
+Print Assumptions C12_slots_bound.
+
+(* the queue never lists a receiver twice (unconditional) *)
+Theorem C12_queue_nodup : forall m t evs, NoDup (queue (run (init m t) evs)).
+Proof. exact queue_nodup. Qed.
+Print Assumptions C12_queue_nodup.
+
+(* arrival order: an event only removes receivers from the queue or appends the
+   accepting one at the tail; one re-dispatch starts receivers in queue order *)
+Theorem C12_queue_order : forall s e,
+  exists l, subseq l (queue s) /\
+    (queue (step s e) = l \/ exists p, e = AcceptEnq p /\ queue (step s e) = l ++ [p]).
+Proof. exact queue_order. Qed.
+Print Assumptions C12_queue_order.
+
+Theorem C12_fifo_start : forall fuel s c,
+  exists started popped,
+    map fst (transfers (maybe_start fuel s c)) = map fst (transfers s) ++ started /\
+    queue s = popped ++ queue (maybe_start fuel s c) /\ subseq started popped.
+Proof. exact maybe_start_fifo. Qed.
+Print Assumptions C12_fifo_start.
+
+(* a slot that frees is re-dispatched in the same step: after a kick, a leave or
+   the end of a transfer either every slot is taken or nobody waits *)
+Theorem C12_work_conserving : forall s e,
+  match e with
+  | Kick | Leave _ => conserving (step s e)
+  | End tid _ => mem tid (running s) = true -> peer_of_tid s tid <> None -> conserving (step s e)
+  | _ => True
+  end.
+Proof. exact work_conserving. Qed.
+Print Assumptions C12_work_conserving.
+
+(* a receiver that leaves is dropped from the queue, loses its slot, and the
+   context of its running transfer is cancelled *)
+Theorem C12_leave : forall s p,
+  let s' := step s (Leave p) in
+  ~ In p (queue s') /\ lookup p (slots s') = None /\
+  (forall c, lookup p (slots s) = Some c -> In c (cancelled s')).
+Proof. exact leave_clears. Qed.
+Print Assumptions C12_leave.
+
+(* no transfer is ever started under an already-cancelled context (holds since
+   fix 14416d6; before it the re-dispatch used the ended transfer's context) *)
+Theorem C12_no_dead_launch : forall m t evs, no_dead_launch (run (init m t) evs).
+Proof. exact no_dead_launch_reachable. Qed.
+Print Assumptions C12_no_dead_launch.
+
+(* PARTIAL (histories satisfying R: no join/accept is announced for a receiver
+   id that still has a running transfer, except the accept-while-TRANSFERRING
+   the code ignores): nobody is queued and active at once, and the number of
+   live (running, not cancelled) transfers is at most max-receivers *)
+Theorem C12_exclusive_partial : forall m t evs p, ok_run (init m t) evs ->
+  let s := run (init m t) evs in In p (queue s) -> lookup p (slots s) = None.
+Proof. intros m t evs p W s. apply exclusive_partial. apply inv2_reachable. exact W. Qed.
+Print Assumptions C12_exclusive_partial.
+
+Theorem C12_live_bound_partial : forall m t evs, ok_run (init m t) evs ->
+  let s := run (init m t) evs in Z.of_nat (length (live s)) <= Z.max 0 (maxr s).
+Proof.
+  intros m t evs W s. apply live_bound_partial; [apply inv2_reachable; exact W|apply slots_bound].
+Qed.
+Print Assumptions C12_live_bound_partial.
+
+(* the FULL statements (without R) are false of the faithful model - known
+   finding "reannounce-while-running" *)
+Definition a := 0%nat. Definition b := 1%nat. Definition c := 2%nat.
+Example C12_exclusive_refuted :
+  let s := run (init 1 600) [Join a; AcceptEnq a; Kick; Join a; AcceptEnq a] in
+  In a (queue s) /\ lookup a (slots s) <> None.
+Proof. vm_compute. split; [left; reflexivity|discriminate]. Qed.
+
+Example C12_bound_running_refuted :
+  let s := run (init 2 600)
+    [Join a; AcceptEnq a; Kick; Join a; AcceptEnq a; Kick; Join b; AcceptEnq b; Kick;
+     Join c; AcceptEnq c; Kick; End 1 true] in
+  length (live s) = 3%nat /\ maxr s = 2.
+Proof. vm_compute. split; reflexivity. Qed.
+
+(* non-vacuity of R: an ordinary history (arrivals, a leave, ends) satisfies it *)
+Example C12_ok_run_example :
+  ok_run (init 1 600) [Join a; AcceptEnq a; Kick; Join b; AcceptEnq b; Kick; AcceptEnq a; Leave a; End 1 false; End 2 true].
+Proof.
+  cbn [ok_run]. repeat split; try exact I.
+  - intros (tid & H & _). exact H.
+  - left. intros (tid & H & _). exact H.
+  - intros (tid & H & P). vm_compute in H. destruct H as [<-|[]]. vm_compute in P. discriminate.
+  - left. intros (tid & H & P). vm_compute in H. destruct H as [<-|[]]. vm_compute in P. discriminate.
+  - right. vm_compute. eauto.
+Qed.
